@@ -1,5 +1,5 @@
 PROP = {
-    "lean_modules": ["GunYu.Props.C20", "GunYu.Props.C20Whole"],
+    "lean_modules": ["GunYu.Props.C20", "GunYu.Props.C20Whole", "GunYu.Props.C20Rerun"],
     "audit_namespaces": ["GunYu.Props.C20"],
     "required_theorems": [
         "GunYu.Props.C20.replace_final",
@@ -40,6 +40,21 @@ PROP = {
         "GunYu.Props.C20.replace_whole_worker",
         "GunYu.Props.C20.ignore_whole_worker",
         "GunYu.Props.C20.error_whole_stop_worker",
+        # real streams (keyless entries between the groups), replaceHashTag
+        "GunYu.Props.C20.whole_plain_stream",
+        "GunYu.Props.C20.whole_bisync_stream",
+        "GunYu.Props.C20.replace_whole_stream",
+        "GunYu.Props.C20.ignore_whole_stream",
+        "GunYu.Props.C20.whole_worker_plain_stream",
+        "GunYu.Props.C20.retag_value",
+        "GunYu.Props.C20.retagG_good",
+        "GunYu.Props.C20.replace_whole_retag",
+        # the RESTART of an interrupted full sync (Props/C20Rerun.lean)
+        "GunYu.Props.C20.flat_cutGroups",
+        "GunYu.Props.C20.rerun_replace_converges",
+        "GunYu.Props.C20.rerun_replace_converges_bisync",
+        "GunYu.Props.C20.rerun_ignore_keeps_partial",
+        "GunYu.Props.C20.rerun_error_stuck",
     ],
     "expected_facts": {},
     "harness": [
@@ -99,21 +114,38 @@ PROP = {
         "native commands rewritten) on both paths; exercised with tagged keys ({t}k, k{t}, a{k}z, }k{, {{k}}, {k, {}k, and {} / }{ which "
         "rewrite to the EMPTY key - D29), split "
         "values and the rewritten / the unrewritten name pre-populated (exhaustive 162-case scope per mode + 1/4 of the random cases)",
+        "RESTART of an interrupted full sync (no checkpoint -> a fresh worker replays the snapshot from entry 0 on the target the "
+        "first attempt left): the property's sentence quantifies over 'all prior target contents' - the leftovers of a dead attempt "
+        "are prior content like any other, and the rerun must (and does: scenario exhaustive-rerun, 216 cuts incl. between the chunks "
+        "of one key, real rdbReplay / rdbReplayBisync / RdbReplay twice on one target double, request diff against the model's rerun + "
+        "the policy monitor started from the target the first attempt left) handle them as the policy says. Consequences, proved "
+        "(Props/C20Rerun.lean) and OBSERVED on the real code (counters observed_rerun_*): replace - the rerun converges to the "
+        "snapshot (rerun_replace_converges); ignore - a chunked key the dead attempt wrote only partly is KEPT truncated and the "
+        "rerun reports success (rerun_ignore_keeps_partial; corpus/C20/rerun_ignore_partial.txt); error - every rerun stops with "
+        "key-exists on the first key the dead attempt wrote (rerun_error_stuck). Not a violation of this property (each full sync "
+        "treats the keys it FINDS as configured; the documentation says no more than 'ignore preserves pre-existing target keys'), "
+        "but an operational hazard of ignore/error with non-atomic chunked values: reported, not listed as a finding",
         "later chunks carry the key's expiry or none (Value.exp): holds for the loader before and after the D8 repair",
     ],
     "partial": [
-        "snapshot level, what is left after the whole-run theorems (Props/C20Whole.lean: the run over a ++ b IS the run over a "
-        "resumed over b - runPlain_split / runBisync_split, every split point, also between the chunks of one key; every key of a "
-        "snapshot of pairwise distinct keys, every pre-existing key and every other cell accounted for, per policy, plain and "
-        "bidirectional, one DB (whole_plain / whole_bisync and corollaries) and several DBs with the worker's SELECT "
-        "(whole_worker_*: stated on runWorker, the function the harness compares the real loops with)): "
-        "(a) TargetDb / TargetDbMap stay correspondence-only (the driver maps the entries' DBs before runWorker); "
-        "(b) keyless entries (functions, AUX: db = -1) between the key groups are not in the whole-run statements (they are in the "
-        "per-entry model and in the request diff); (c) the groups' keys (cells) must be pairwise distinct - two snapshot keys that "
-        "rewrite to one target key, or two source DBs mapped to one target DB with one key name, are excluded, not decided",
-        "replaceHashTag: the worker replays `retag e` - applied in the driver; proved only that retag keeps a key group a key group "
-        "on the rewritten key (retag_group) and moves the command key (rewriteCmd_cmdKey); that the real code equals `replay (retag e)` "
-        "is correspondence (D27, D28, D29 were found there)",
+        "snapshot level, what is left after the whole-run theorems (Props/C20Whole.lean: one worker; the run over a ++ b is the "
+        "run over a CONTINUED over b by the same loop - runPlain_split / runBisync_split, every split point; every key of a snapshot of "
+        "pairwise distinct keys, every pre-existing key and every other cell accounted for, per policy, plain and bidirectional, one "
+        "DB and several DBs with the worker's SELECT; keyless entries (AUX fields - which carry the DB of their place in the file, "
+        "loader.go:151, and make the worker SELECT - and function libraries, db = -1) may stand ANYWHERE in the stream: "
+        "whole_*_stream, runPlain_strip / runBisync_strip / runWG_strip): "
+        "(a) TargetDb / TargetDbMap stay correspondence-only (the driver maps the entries' DBs before runWorker); the worker's "
+        "filter branch (FilterDb before SELECT, key/slot filters after) is not in runWorker; "
+        "(b) whole_worker_bisync has no *_stream form (the plain worker has); "
+        "(c) the groups' keys (cells) must be pairwise distinct AFTER DB mapping and key rewriting - TargetDb >= 0 with one key "
+        "name in two source DBs, a non-injective TargetDbMap, {a}b + ab under replaceHashTag (routed by the SOURCE key, possibly to "
+        "two workers) are excluded, not decided; a foreign file with a key twice is not refused by the parser; "
+        "(d) one worker: nothing composes N concurrent workers on one keyspace (under `error` the other workers go on writing "
+        "until the cancel reaches them: 'every other cell untouched' is this worker's cells); one `now` for the whole run",
+        "replaceHashTag: the worker replays `retag e` - applied in the driver; proved that retag keeps a GOOD key group good on the "
+        "rewritten key (retag_group + retag_value, given every command has its key argument: args non-empty, XGROUP with >= 2) and "
+        "hence replace_whole_retag (Nodup of the REWRITTEN keys); that the real code equals `replay (retag e)` is correspondence "
+        "(D27, D28, D29 were found there)",
         "Group / Value (shape of loader output) are hypotheses about what rdb.Loader delivers (C03's subject), checked on the "
         "generated snapshots only through the request-by-request diff",
         "a module value that cannot take the RESTORE path (restore off / above the bulk limit / refused) fails the replay with "
@@ -130,12 +162,14 @@ MANIFEST = {
             "with exactly the snapshot's value and expiry and nothing else changes; with ignore only the probe is sent - for every "
             "chunk - and the keyspace is unchanged; with error the replay stops after the probe with nothing modified; the same "
             "three for the bidirectional builder (skippedKey) + unit executor; fresh keys end with the snapshot value under any "
-            "policy. WHOLE RUNS: the run over a ++ b is the run over a resumed over b from the remembered state and the target a left "
+            "policy. WHOLE RUNS: the run over a ++ b is the run over a CONTINUED over b (the same loop) from the remembered state and the target a left "
             "(every split point, also between the chunks of a key; plain and bidirectional); for a snapshot = any list of key groups "
-            "with pairwise distinct keys, from any state and target: every key gets its policy's effect on what it held at the START "
+            "with pairwise distinct keys (after DB mapping and key rewriting), keyless entries anywhere between, from any state and target: every key gets its policy's effect on what it held at the START "
             "(replace: snapshot value; ignore: kept / snapshot value; error: stop at the first held key, keys before it written, all "
             "else untouched; bidirectional: a payload the target cannot load stops the run there, nothing merged), every other cell "
-            "untouched - one DB, and several DBs with the worker's SELECT (stated on runWorker). The models of RdbReplay.Replay, buildBisyncRdbReplayUnit/execBisyncRdbUnit and the two worker loops are tied "
+            "untouched - one DB, and several DBs with the worker's SELECT (stated on runWorker). RESTART (fresh worker, entry 0, the "
+            "target a dead first attempt left; cut at any entry): replace converges to the snapshot; ignore keeps a partly written "
+            "chunked key truncated and succeeds; error is stuck on the first written key - proved and run on the real code. The models of RdbReplay.Replay, buildBisyncRdbReplayUnit/execBisyncRdbUnit and the two worker loops are tied "
             "to the real code by request-by-request correspondence against the target double with pre-populated keys; an "
             "independent Go monitor checks the property itself on the real code's final keyspace.",
     "note": "trusted: Lean kernel, transcribed Redis semantics of the few commands used, target double, harness; models of the "
